@@ -18,10 +18,11 @@ class HeaderMember:
 
     def headers(self) -> Header:
         rv: Header = {}
-        if self.protected:
-            rv.update(self.protected)
         if self.header:
             rv.update(self.header)
+        # integrity-protected members take precedence over unprotected ones
+        if self.protected:
+            rv.update(self.protected)
         return rv
 
     def set_kid(self, kid: str) -> None:
